@@ -5,8 +5,13 @@ Correspondence ops (implementation vs compiled Lean model, every run):
   tables          StateFields / XMLStateFields / StateType / TrajectoryType values and the state classes' attributes
   schema          the Lean term `solSchema` vs the shipped CommonRoadSolution_schema.xsd (parsed here with lxml)
   construct       Trajectory(...) + PlanningProblemSolution(...): trajectory type or exception class
+  set_trajectory  PlanningProblemSolution(decoy) followed by the `trajectory` setter (type re-derived without the vehicle model)
   encode          CommonRoadSolutionWriter(solution).dump(pretty) parsed back into (tag, attributes, children, text)
-  decode          CommonRoadSolutionReader.fromstring(document): solution or exception class (valid documents and mutants)
+  decode          CommonRoadSolutionReader.fromstring(document): solution or exception class (valid documents and mutants);
+                  the model (decodeDoc) parses the benchmark id from the attribute TEXT with C13's character-level model
+  decode_tokens   the same against the token-level reader core (decodeSol) the theorems are stated about
+  py_texts        every number / date / time-step text Python wrote: in the grammar pyNumL / pyDateL / Int.repr the theorems
+                  C14_sol_roundtrip_py and C14_sol_valid_xsd assume, and accepted by the Lean xs:float/xs:dateTime/xs:int checkers
   norm            the read-back solution vs `normSol` (the right-hand side of the round-trip theorem)
   validate        lxml XMLSchema validation vs the Lean validator (valid documents and mutants)
 Oracle (independent of the model): float.hex equality of every state value after dump -> fromstring and after
@@ -36,10 +41,13 @@ RULE = ("solutions built with the repository's own constructors: every admissibl
         "(dropped/duplicated/renamed elements, bad number text, reordered trajectories, wrong ids) for the reader's error "
         "branches and the validator.  non-trivial = every case; distinct = distinct canonical JSON of the case")
 ASSUMPTIONS = [
-    "Python's str(float)/str(np.float64)/float(text), str(int)/int(text) and strftime/strptime round trip exactly (Codec.Lawful in the "
-    "theorems); sampled on every run by the float.hex oracle",
+    "the theorems take the TEXT Python writes for a number as the number's token (Codec.py): trusted is that str(x) of a finite "
+    "float/int is a text of the grammar pyNumL (checked on every written text by the py_texts correspondence) and that the text "
+    "determines the value bit for bit, i.e. float(str(x)) == x (sampled on every run by the float.hex oracle); likewise "
+    "strftime/strptime for dates with a four-digit year and str(int)/int(text)",
     "xml.etree / minidom / lxml serialise and parse element trees faithfully for printable text",
-    "the benchmark-id attribute is modelled at token level; splitting it and ScenarioID.from_benchmark_id are property C13's subject",
+    "the benchmark-id attribute text is parsed by property C13's character-level model (decodeDoc); C14_doc_roundtrip holds for "
+    "scenario ids in C13's domain `Valid` and at least one planning problem",
     "domain choices (narrower reading of the text): processor names are printable single-line strings other than the documented "
     "keyword 'auto'; dates have a four-digit year (glibc strftime('%Y') does not pad smaller years); the schema clause is evaluated "
     "only when every time step fits xs:int (32 bit) — such cases are counted in excluded_ambiguous",
@@ -47,7 +55,7 @@ ASSUMPTIONS = [
 TRUSTED = ["lxml/libxml2 XML Schema validator (the Lean validator is compared with it, not proved equal)"]
 REQUIRED_BUCKETS = ["single", "cooperative", "type:PM", "type:ST", "type:KS", "type:KST", "type:MB", "type:Input", "type:PMInput",
                     "unordered", "schema-checked", "schema-not-applicable", "file-path", "pretty", "compact", "mutant", "reject",
-                    "superset-state", "date", "computation-time", "processor-name"]
+                    "superset-state", "date", "computation-time", "processor-name", "setter-path"]
 WORKERS = {"quick": 1, "thorough": 8}
 
 XSD_PATH = os.path.join(REPO, "commonroad", "scenario_definition", "xml_definition_files", "CommonRoadSolution_schema.xsd")
@@ -700,6 +708,34 @@ def shuffle_states(r, t):
     return t
 
 
+def countries():
+    if "countries" not in _cache:
+        import iso3166
+        _cache["countries"] = sorted(iso3166.countries_by_alpha3)
+    return _cache["countries"]
+
+
+def doc_view(t):
+    """the root element as the document has it (benchmark id = one attribute string), for the string-level reader model"""
+    return {"tag": t["tag"], "bid": t["bid"], "attrs": t["attrs"], "trajs": t["trajs"]}
+
+
+def ask_decode(ctx, ctree):
+    return ctx.driver.ask("C14", "decode", {"tree": doc_view(ctree), "countries": countries()})
+
+
+def check_py_texts(ctx, case, raw):
+    """the lexical assumptions of C14_sol_valid_xsd / C14_sol_roundtrip_py, on the texts Python actually wrote"""
+    nums = [x for tn in raw["trajs"] for sn in tn["states"] for t, x in sn["leaves"] if t != "time"]
+    nums += [v for k, v in raw["attrs"] if k == "computation_time"]
+    times = [x for tn in raw["trajs"] for sn in tn["states"] for t, x in sn["leaves"] if t == "time"]
+    dates = [v for k, v in raw["attrs"] if k == "date"]
+    model = ctx.driver.ask("C14", "py_texts", {"nums": nums, "dates": dates, "times": times})
+    want = {"nums": [True] * len(nums), "dates": [True] * len(dates), "times": [True] * len(times)}
+    ctx.compare({"kind": "texts", "nums": nums, "dates": dates, "times": times}, want, model,
+                "texts written by Python vs the grammar pyNumL / pyDateL / Int.repr and the xs:float / xs:dateTime / xs:int checkers")
+
+
 def canon_result(res):
     if res[0] == "ok":
         return {"ok": canon_solution(res[1])}
@@ -717,8 +753,8 @@ def run_mutant(ctx, case, raw_tree):
         sub = {"kind": "document", "doc": doc, "label": label}
         ct = canon_tree(mt)
         impl = canon_result(call(CommonRoadSolutionReader.fromstring, doc))
-        model = ctx.driver.ask("C14", "decode", {"tree": ct})
-        ctx.compare(sub, impl, model, f"CommonRoadSolutionReader.fromstring vs CR.Sol.decodeSol on a mutated document ({label})")
+        model = ask_decode(ctx, ct)
+        ctx.compare(sub, impl, model, f"CommonRoadSolutionReader.fromstring vs CR.Sol.decodeDoc on a mutated document ({label})")
         ok, _ = lxml_valid(doc)
         mv = ctx.driver.ask("C14", "validate", {"tree": {**mt, "bench": parse_bid(mt["bid"])}})
         ctx.compare(sub, ok, mv, f"lxml validation vs CR.Sol.validate on a mutated document ({label})")
@@ -740,8 +776,17 @@ def check_construct(ctx, case):
             return None
         res = call(build_pps, p)
         impl = {"ok": res[1].trajectory_type.name} if res[0] == "ok" else {"err": res[1]}
-        model = ctx.driver.ask("C14", "construct", pps_args(p, [canon_state(s) for s in states]))
-        ctx.compare({"kind": "reject", "pps": [p]}, impl, model, "Trajectory/PlanningProblemSolution constructors vs CR.Sol.mkTraj/mkPPS")
+        decoy = _decoy_trajectory(p)
+        if decoy is not None and p["id"] % 3 == 1:
+            ctx.tag("setter-path")
+            args = pps_args(p, [canon_state(s) for s in states])
+            args["decoy"] = {"init": int(decoy.initial_time_step), "states": [canon_state(s) for s in decoy.state_list]}
+            model = ctx.driver.ask("C14", "set_trajectory", args)
+            ctx.compare({"kind": "reject", "pps": [p]}, impl, model,
+                        "PlanningProblemSolution(decoy) + trajectory setter vs CR.Sol.mkPPS/setTrajectory")
+        else:
+            model = ctx.driver.ask("C14", "construct", pps_args(p, [canon_state(s) for s in states]))
+            ctx.compare({"kind": "reject", "pps": [p]}, impl, model, "Trajectory/PlanningProblemSolution constructors vs CR.Sol.mkTraj/mkPPS")
         out.append(res)
     return out
 
@@ -832,7 +877,9 @@ def run_solution(ctx, case, model=True):
         menc = {"ok": model_tree_view(menc["ok"])}
     ctx.compare(case, {"ok": model_tree_view(ctree)}, menc, "CommonRoadSolutionWriter.dump vs CR.Sol.encodeSol")
     impl_dec = canon_result(rd)
-    ctx.compare(case, impl_dec, ctx.driver.ask("C14", "decode", {"tree": ctree}), "CommonRoadSolutionReader.fromstring vs CR.Sol.decodeSol")
+    ctx.compare(case, impl_dec, ask_decode(ctx, ctree), "CommonRoadSolutionReader.fromstring vs CR.Sol.decodeDoc (benchmark id parsed from the attribute text)")
+    ctx.compare(case, impl_dec, ctx.driver.ask("C14", "decode_tokens", {"tree": ctree}), "CommonRoadSolutionReader.fromstring vs CR.Sol.decodeSol (token level)")
+    check_py_texts(ctx, case, raw)
     if rd[0] == "ok":
         ctx.compare(case, impl_dec["ok"], ctx.driver.ask("C14", "norm", {"sol": csol, "auto": auto}),
                     "read-back solution vs CR.Sol.normSol (right-hand side of C14_sol_roundtrip)")
@@ -851,7 +898,7 @@ def run_document(ctx, case):
     doc = case["doc"]
     raw = doc_tree(doc, canonical=False)
     impl = canon_result(call(CommonRoadSolutionReader.fromstring, doc))
-    ctx.compare(case, impl, ctx.driver.ask("C14", "decode", {"tree": canon_tree(raw)}), "fromstring vs decodeSol (stored document)")
+    ctx.compare(case, impl, ask_decode(ctx, canon_tree(raw)), "fromstring vs decodeDoc (stored document)")
     ok, _ = lxml_valid(doc)
     ctx.compare(case, ok, ctx.driver.ask("C14", "validate", {"tree": raw}), "lxml vs validate (stored document)")
 
